@@ -43,7 +43,7 @@ CHECKS = {
             "exhaustive enumeration of small boxes + Hypothesis property tests against a brute-force oracle",
             "Every range / (value, shape) / helper argument in a stated finite box is enumerated and compared "
             "with a brute-force search for the narrowest fitting shape and a modular wrap; wide integers, "
-            "enumerations, constant Cat/Slice trees, signal and memory inits are sampled with Hypothesis. "
+            "enumerations, constant Cat/Slice trees, signal inits and memory rows (constructor, setter, index and slice assignment) are sampled with Hypothesis. "
             "Exhaustive inside the boxes, sampled outside: right for a pure arithmetic property whose "
             "failures cluster at powers of two and sign boundaries, which the boxes and the biased "
             "generator cover densely.",
@@ -80,7 +80,7 @@ CHECKS = {
             "Every catalogue entry is compared with the published parameters/check value and, for 11+ data widths and "
             "seeded messages, with an independent bit-at-a-time register model; random parameter sets (incl. even "
             "polynomials, all reflection combinations, data width <,=,> crc width) extend this beyond the catalogue. The "
-            "hardware Processor is simulated on generated schedules with idle gaps, restarts and start with/without valid, "
+            "hardware Processor (a quarter of the time an object that was already elaborated once) is simulated on generated schedules with idle gaps, restarts and start with/without valid, "
             "and match_detected is checked positively (own CRC in transmission order) and negatively (all other trailers "
             "for crc_width<=8, sampled otherwise).",
             "Oracle: vchecks/c16.py williams_* (shares no code with amaranth.lib.crc); refdata/crc_catalog.json is a frozen "
@@ -101,7 +101,7 @@ CHECKS = {
             "Hypothesis-generated clock/input/reset event schedules (harness-owned clocks, coincident edges) judged by "
             "shift-register, release-counter and pulse-count monitors",
             "FFSynchronizer is compared with a `stages`-deep shift register preloaded with the initial value over all "
-            "widths/stage counts/edges/reset configurations; AsyncFFSynchronizer and ResetSynchronizer with a monitor that "
+            "widths/stage counts/edges/reset configurations, outputs of the same or a wider shape and objects elaborated once or twice; AsyncFFSynchronizer and ResetSynchronizer with a monitor that "
             "demands assertion in the very event the input asserts and release after exactly `stages` active edges; "
             "PulseSynchronizer with pulse conservation (outputs == inputs after a drain, never ahead) over schedules that "
             "satisfy the stated precondition by construction, including coincident edges and a shared domain.",
@@ -126,7 +126,7 @@ CHECKS = {
             "The port algebra of all three port classes is compared bit for bit (length, direction, inversion tuple, "
             "refusals) with a bit-map model; Buffer and FFBuffer on simulation ports are simulated on generated "
             "o/oe/pad/clock events and every pad and fabric bit is compared after every event; for real ports the "
-            "netlist must contain exactly one I/O buffer cell per used pad bit, overlapping buffers must be refused, and "
+            "netlist must contain exactly one I/O buffer cell per used pad bit, overlapping buffers (two buffers, or one port expression naming a bit twice) must be refused, and "
             "the cells' nets are evaluated to confirm that inversion is applied on the fabric side.",
             "Model in vchecks/c18.py. The small netlist evaluator supports top/^/~/&/|/iob cells only (else exit 2).",
             "DESIGN.md §4 C18"),
